@@ -398,6 +398,10 @@ func TypedValueToYANGType(tv *sdcpb.TypedValue, schemaObject *sdcpb.SchemaElem) 
 	case *sdcpb.TypedValue_AsciiVal:
 		return ConvertToTypedValue(schemaObject, tv.GetAsciiVal(), tv.GetTimestamp())
 	case *sdcpb.TypedValue_BoolVal:
+		if leafTypeOf(schemaObject).GetType() == "empty" {
+			// gNMI has no value of its own for the type empty, a set leaf is reported as boolean true
+			return &sdcpb.TypedValue{Timestamp: tv.GetTimestamp(), Value: &sdcpb.TypedValue_EmptyVal{}}, nil
+		}
 		return tv, nil
 	case *sdcpb.TypedValue_BytesVal:
 		return tv, nil
@@ -413,8 +417,10 @@ func TypedValueToYANGType(tv *sdcpb.TypedValue, schemaObject *sdcpb.SchemaElem) 
 		return ConvertToTypedValue(schemaObject, tv.GetStringVal(), tv.GetTimestamp())
 	case *sdcpb.TypedValue_UintVal:
 		return tv, nil
-	case *sdcpb.TypedValue_JsonIetfVal: // TODO:
-	case *sdcpb.TypedValue_JsonVal: // TODO:
+	case *sdcpb.TypedValue_JsonIetfVal:
+		return jsonValueToYANGType(tv.GetJsonIetfVal(), tv, schemaObject)
+	case *sdcpb.TypedValue_JsonVal:
+		return jsonValueToYANGType(tv.GetJsonVal(), tv, schemaObject)
 	case *sdcpb.TypedValue_LeaflistVal:
 		return tv, nil
 	case *sdcpb.TypedValue_ProtoBytes:
@@ -423,6 +429,65 @@ func TypedValueToYANGType(tv *sdcpb.TypedValue, schemaObject *sdcpb.SchemaElem) 
 		return tv, nil
 	}
 	return tv, nil
+}
+
+func leafTypeOf(schemaObject *sdcpb.SchemaElem) *sdcpb.SchemaLeafType {
+	switch {
+	case schemaObject.GetField() != nil:
+		return schemaObject.GetField().GetType()
+	case schemaObject.GetLeaflist() != nil:
+		return schemaObject.GetLeaflist().GetType()
+	}
+	return nil
+}
+
+// jsonValueToYANGType converts the JSON / JSON_IETF value a device reports for a leaf or a leaf-list into the
+// typed value of the YANG type, so that it compares equal to the same datum given in any other form.
+// Values of containers (JSON objects) are left as they are, they get expanded elsewhere.
+func jsonValueToYANGType(jsonValue []byte, tv *sdcpb.TypedValue, schemaObject *sdcpb.SchemaElem) (*sdcpb.TypedValue, error) {
+	leafType := leafTypeOf(schemaObject)
+	if leafType == nil {
+		return tv, nil
+	}
+	var v any
+	dec := json.NewDecoder(bytes.NewReader(jsonValue))
+	// keep numbers as they are written, float64 cannot hold all 64 bit integers
+	dec.UseNumber()
+	err := dec.Decode(&v)
+	if err != nil {
+		return nil, err
+	}
+	scalar := func(x any) (*sdcpb.TypedValue, error) {
+		if leafType.GetType() == "empty" {
+			// RFC 7951: [null], plain JSON encodings use {} or null
+			return &sdcpb.TypedValue{Timestamp: tv.GetTimestamp(), Value: &sdcpb.TypedValue_EmptyVal{}}, nil
+		}
+		switch x := x.(type) {
+		case string:
+			return convertStringToTv(leafType, x, tv.GetTimestamp())
+		case json.Number:
+			return convertStringToTv(leafType, x.String(), tv.GetTimestamp())
+		case bool:
+			return convertStringToTv(leafType, strconv.FormatBool(x), tv.GetTimestamp())
+		}
+		return nil, fmt.Errorf("unexpected JSON value %v (%T) for a leaf of type %s", x, x, leafType.GetType())
+	}
+	if schemaObject.GetLeaflist() != nil {
+		arr, ok := v.([]any)
+		if !ok {
+			arr = []any{v}
+		}
+		list := make([]*sdcpb.TypedValue, 0, len(arr))
+		for _, e := range arr {
+			etv, err := scalar(e)
+			if err != nil {
+				return nil, err
+			}
+			list = append(list, etv)
+		}
+		return &sdcpb.TypedValue{Timestamp: tv.GetTimestamp(), Value: &sdcpb.TypedValue_LeaflistVal{LeaflistVal: &sdcpb.ScalarArray{Element: list}}}, nil
+	}
+	return scalar(v)
 }
 
 func ConvertToTypedValue(schemaObject *sdcpb.SchemaElem, v string, ts uint64) (*sdcpb.TypedValue, error) {
@@ -633,15 +698,26 @@ func ConvertTypedValueToYANGType(schemaElem *sdcpb.SchemaElem, tv *sdcpb.TypedVa
 			}, nil
 		}
 	case schemaElem.GetLeaflist() != nil:
-		switch tv.Value.(type) {
-		case *sdcpb.TypedValue_LeaflistVal:
-			return tv, nil
+		// the elements are converted like the value of a leaf of the same type, such that
+		// e.g. a number given as string equals the same number given (or reported) as number
+		elemSchema := &sdcpb.SchemaElem{Schema: &sdcpb.SchemaElem_Field{Field: &sdcpb.LeafSchema{Type: schemaElem.GetLeaflist().GetType()}}}
+		elems := []*sdcpb.TypedValue{tv}
+		if llv, ok := tv.Value.(*sdcpb.TypedValue_LeaflistVal); ok {
+			elems = llv.LeaflistVal.GetElement()
+		}
+		converted := make([]*sdcpb.TypedValue, 0, len(elems))
+		for _, e := range elems {
+			ce, err := ConvertTypedValueToYANGType(elemSchema, e)
+			if err != nil {
+				return nil, err
+			}
+			converted = append(converted, ce)
 		}
 		return &sdcpb.TypedValue{
 			Timestamp: tv.GetTimestamp(),
 			Value: &sdcpb.TypedValue_LeaflistVal{
 				LeaflistVal: &sdcpb.ScalarArray{
-					Element: []*sdcpb.TypedValue{tv},
+					Element: converted,
 				},
 			},
 		}, nil
@@ -649,8 +725,21 @@ func ConvertTypedValueToYANGType(schemaElem *sdcpb.SchemaElem, tv *sdcpb.TypedVa
 		switch schemaElem.GetField().GetType().GetType() {
 		default:
 			return tv, nil
-		case "string", "identityref":
+		case "string":
 			return tv, nil
+		case "identityref":
+			// normalize to the form a value reported by the device is converted to (name, prefix and
+			// module), otherwise the same identity given as string or without its module never equals it
+			name := TypedValueToString(tv)
+			if idv, ok := tv.Value.(*sdcpb.TypedValue_IdentityrefVal); ok {
+				name = idv.IdentityrefVal.GetValue()
+			}
+			ctv, err := convertStringToTv(schemaElem.GetField().GetType(), name, tv.GetTimestamp())
+			if err != nil {
+				// not a known identity, left to the validation of the value
+				return tv, nil
+			}
+			return ctv, nil
 		case "leafref":
 			// a leafref carries values of the type of the leaf it points to
 			targetType := schemaElem.GetField().GetType().GetLeafrefTargetType()
@@ -682,6 +771,14 @@ func ConvertTypedValueToYANGType(schemaElem *sdcpb.SchemaElem, tv *sdcpb.TypedVa
 		case "enumeration":
 			return tv, nil
 		case "union":
+			// a value given as string is converted to the first member type it fits, the same way a
+			// value reported by the device is (otherwise "5" never equals 5)
+			if sv, ok := tv.Value.(*sdcpb.TypedValue_StringVal); ok {
+				ctv, err := convertStringToTv(schemaElem.GetField().GetType(), sv.StringVal, tv.GetTimestamp())
+				if err == nil {
+					return ctv, nil
+				}
+			}
 			return tv, nil
 		case "boolean":
 			v, err := strconv.ParseBool(TypedValueToString(tv))
@@ -754,9 +851,31 @@ func convertUpdateTypedValue(_ context.Context, upd *sdcpb.Update, scRsp *sdcpb.
 			return nil, nil
 		}
 		// regular leaf list
-		switch upd.GetValue().GetValue().(type) {
+		switch v := upd.GetValue().GetValue().(type) {
 		case *sdcpb.TypedValue_LeaflistVal:
-			return upd, nil
+			// convert the elements to the YANG type of the leaf-list
+			elems := make([]*sdcpb.TypedValue, 0, len(v.LeaflistVal.GetElement()))
+			for _, e := range v.LeaflistVal.GetElement() {
+				ce, err := TypedValueToYANGType(e, scRsp.GetSchema())
+				if err != nil {
+					return nil, err
+				}
+				elems = append(elems, ce)
+			}
+			return &sdcpb.Update{
+				Path: upd.GetPath(),
+				Value: &sdcpb.TypedValue{
+					Timestamp: upd.GetValue().GetTimestamp(),
+					Value:     &sdcpb.TypedValue_LeaflistVal{LeaflistVal: &sdcpb.ScalarArray{Element: elems}},
+				},
+			}, nil
+		case *sdcpb.TypedValue_JsonVal, *sdcpb.TypedValue_JsonIetfVal:
+			// the whole leaf-list as JSON array
+			ctv, err := TypedValueToYANGType(upd.GetValue(), scRsp.GetSchema())
+			if err != nil {
+				return nil, err
+			}
+			return &sdcpb.Update{Path: upd.GetPath(), Value: ctv}, nil
 		default:
 			return nil, fmt.Errorf("unexpected leaf-list typedValue: %v", upd.GetValue())
 		}
